@@ -37,6 +37,18 @@ func VerifLoadedDataTries(adb *AccountsDB) map[string]data.Trie {
 	return adb.dataTries.(*dataTriesHolder).GetAllTries()
 }
 
+// VerifRestoreLoadedDataTries puts back a content of adb.dataTries obtained earlier from
+// VerifLoadedDataTries (through the holder's own Reset/Put). The harness uses it to undo the
+// caching side effect of its read-only observation.
+func VerifRestoreLoadedDataTries(adb *AccountsDB, tries map[string]data.Trie) {
+	adb.mutOp.Lock()
+	defer adb.mutOp.Unlock()
+	adb.dataTries.Reset()
+	for k, t := range tries {
+		adb.dataTries.Put([]byte(k), t)
+	}
+}
+
 // VerifObsoleteRoots returns the sorted keys of adb.obsoleteDataTrieHashes (hex).
 func VerifObsoleteRoots(adb *AccountsDB) []string {
 	adb.mutOp.Lock()
